@@ -263,12 +263,11 @@ class CRS:
         if self._str == other._str:
             return True
 
-        if self._str.startswith("EPSG:") and other._str.startswith("EPSG:"):
-            # two different EPSG codes
-            # (`_epsg` can not be used here: it might have been filled in later
-            #  by `to_epsg()`, which also identifies "close enough" definitions)
-            return False
-
+        # No short-cut on EPSG codes:
+        #  - `_epsg` might have been filled in later by `to_epsg()`, which also
+        #    identifies "close enough" definitions
+        #  - different spellings ("EPSG:04326") and different codes (EPSG:2463 and
+        #    EPSG:20064) can denote the same CRS
         return self._crs == other._crs
 
     def __ne__(self, other) -> bool:
